@@ -36,6 +36,8 @@ Calibration
 * Values with 1-2 *extra leading length-1 axes* (x[1, :] = np.arange(6.).reshape(1, 6); value mode ``lead1``) were
   first left out as "a NumPy leniency, not broadcasting"; NumPy accepts them and the lead asked for them, so they
   are generated (NumPy / list / dask values; counter ``leading_1_axes_values``, value token ``leading-1-axes-array``).
+* A nested *list* assigned to a single element (x[1] = [[False]]): NumPy converts the list object itself (for a bool
+  array its truthiness -> True); not an array value, so lead1 values for 0-d selections are NumPy arrays.
 * n-d NumPy boolean masks are not among the documented assignment indices (dask raises IndexError): rejected.
 * Family labels ``int+negative-step-slice`` and ``int+int-array`` with symptom classes raises | wrong-result: the shrunk
   forms and exception sites of these two setitem_array defects varied from seed to seed (thorough run).
@@ -66,11 +68,11 @@ ASSUMPTIONS = ["NumPy 2.x assignment defines the expected array", "sync schedule
 BUDGET = {"quick": 120, "thorough": 900}
 FLOORS = {"quick": {"evaluations": 3000, "distinct_nontrivial": 2300,
                     "counters": {"compared": 3000, "chunks_unchanged_checked": 2700, "input_not_mutated_checked": 2700,
-                                 "blocks_checked": 2700, "dask_values": 500, "leading_1_axes_values": 1},
+                                 "blocks_checked": 2700, "dask_values": 500, "leading_1_axes_values": 180},
                     "sets": {"index_feature_tokens": 45}, "max_skipped_fraction": 0.2},
           "thorough": {"evaluations": 45000, "distinct_nontrivial": 36000,
                        "counters": {"compared": 45000, "chunks_unchanged_checked": 40000, "input_not_mutated_checked": 40000,
-                                    "blocks_checked": 40000, "dask_values": 8000, "leading_1_axes_values": 1},
+                                    "blocks_checked": 40000, "dask_values": 8000, "leading_1_axes_values": 2800},
                        "sets": {"index_feature_tokens": 60}, "max_skipped_fraction": 0.2}}
 EXHAUSTIVE_SPACE = {
     "quick": "all chunkings of shapes (5,) and (3,2) x the fixed index/value pattern list (PATTERNS_1D, PATTERNS_2D)",
@@ -101,6 +103,10 @@ FIXED = {
     "C21_07_setitem_tuple_wrapped_dask_mask": ["setitem:whole-array-dask-mask&value=scalar:IndexError@array/slicing.py:parse_assignment_indices",
                                                "setitem:tuple-wrapped-whole-array-dask-mask:values"],
     "C21_08_setitem_empty_negative_step_slice": ["setitem:empty-selection&value=zero-size-array:ValueError@array/slicing.py:setitem_array"],
+    "C21_10_setitem_value_with_extra_leading_dims": ["setitem:int&value=leading-1-axes-array:ValueError@array/slicing.py:setitem",
+                                                      "setitem:int&split-chunks&value=leading-1-axes-array:ValueError@array/slicing.py:setitem",
+                                                      "setitem:Ellipsis+int&value=leading-1-axes-array:ValueError@array/slicing.py:setitem",
+                                                      "setitem:int+int-array:raises (lead1 values)", "setitem:int+negative-step-slice:wrong-result (lead1 values)"],
     "C21_09_setitem_empty_selection_conforming_value": ["setitem:empty-selection&value=array-with-axis-longer-than-1:ValueError@array/slicing.py:setitem_array"],
 }
 
@@ -244,7 +250,7 @@ def make_value(sel_shape, dtype, vmode, vkind, vseed, da):
         return py, py, "python scalar"
     if vmode == "npscalar":
         return v[()], v[()], "numpy scalar"
-    if vkind == "list" and not dtype.startswith("datetime64") and vmode != "np0d":
+    if vkind == "list" and not dtype.startswith("datetime64") and vmode != "np0d" and not (vmode == "lead1" and not sel):
         return v.tolist(), v.tolist(), "nested list %s" % (shp,)
     if vkind == "dask":
         ch = tuple(A.rand_comp(r, s) for s in shp)
